@@ -3,6 +3,7 @@ package storeh
 import (
 	"fmt"
 	"os"
+	"sort"
 	"strings"
 	"testing"
 
@@ -113,6 +114,7 @@ func RunHistory(e, r *Backend, ops []Op, divs []string, mayFail []bool, dense bo
 	if !dense {
 		items = append(items, TakeSnap(e, r).Term())
 	}
+	items = append(items, "(IKeys "+rawKeys(e.Dump())+" "+rawKeys(r.Dump())+")")
 	return
 }
 
@@ -146,4 +148,22 @@ func CaseTerm(items []string) string {
 		return L(out)
 	}
 	return "(" + lets.String() + L(out) + ")"
+}
+
+func rawKeys(d []DumpEntry) string {
+	ks := make([]string, len(d))
+	for i, e := range d {
+		ks[i] = e.Key
+	}
+	sort.Strings(ks)
+	return StrList2(ks)
+}
+
+// StrList2 prints a list of strings with explicit constructors.
+func StrList2(vs []string) string {
+	items := make([]string, len(vs))
+	for i, v := range vs {
+		items[i] = Str(v)
+	}
+	return L(items)
 }
